@@ -21,6 +21,10 @@ func runC11(c *Ctx) {
 	r11_3(c, "R11.3")
 	r03_1(c, "R11.4a")
 	r03_4(c, "R11.4b")
+	// the walk and Open of a filtered view agree only if the walk attributes
+	// match state to real ancestors: containment tests use a
+	// separator-terminated prefix (shared with C10)
+	r10_2(c, "R11.5")
 }
 
 func r11_1(c *Ctx, rule string) {
